@@ -111,6 +111,10 @@ class H2Protocol:
                 h2.settings.SettingCodes.ENABLE_CONNECT_PROTOCOL: 1,
             },
         )
+        # h2 configures its header decoder from the settings it was
+        # constructed with, and again only when an acknowledged
+        # setting *changes*; initial values never reach it.
+        self.connection.decoder.max_header_list_size = config.h2_max_header_list_size
 
         self.keep_alive_requests = 0
         self.send = send
